@@ -167,6 +167,8 @@ class ThrottleExecutor(CanCustomizeBind, Executor):
                 return
             self._log.debug("%s: throttling on submit", self._name)
             self._ready_event.wait(30.0)
+            # the limit may have changed while we were blocked
+            throttle_val = self._eval_throttle()
 
     def _eval_throttle(self):
         try:
